@@ -109,6 +109,10 @@ pub(crate) fn parse_directive(jsx_attr: &JSXAttr, is_component: bool) -> Directi
             modifiers = Some(splitted.map(Atom::from).collect());
             value = (**expr).clone();
         }
+    } else if let Some(JSXAttrValue::Lit(Lit::Str(str))) = &jsx_attr.value {
+        // `v-foo="text"`: the value is that string
+        modifiers = Some(splitted.map(Atom::from).collect());
+        value = Expr::Lit(Lit::Str(quote_str!(str.value.clone())));
     } else {
         modifiers = Some(splitted.map(Atom::from).collect());
         value = undefined();
